@@ -111,7 +111,13 @@ class Prop:
             if op["k"] in ("set", "setlist", "list") and drop_rate and er.random() < drop_rate * 2:
                 op["env"] = [{"at": "h:any", "nth": er.choice([1, 1, 2]), "do": "dropgc",
                               "o": er.randrange(nobj)}]
-            if op["k"] == "sync" and drop_rate and er.random() < 0.5:
+            if op["k"] == "sync" and op["ta"] in PAIRS["chk"] and er.random() < 0.4:
+                # the object that is handed the first value rejects it (its validator
+                # fails): the call raises and no link comes of it - and the links that
+                # exist already, also one in the opposite direction, stay as they are
+                op["env"] = [{"at": "validator:c", "nth": 1, "do": "raise",
+                              "exc": er.choice(["TraitError", "ValueError", "RuntimeError"])}]
+            elif op["k"] == "sync" and drop_rate and er.random() < 0.5:
                 # another object (typically another partner) dies while the new link
                 # hands over its first value
                 op["env"] = [{"at": "h:any", "nth": 1, "do": "dropgc", "o": er.randrange(nobj)}]
@@ -245,9 +251,13 @@ class Prop:
                         _, e = sut(objs[a].sync_trait, ta, objs[b], tb, op["mutual"])
                     finally:
                         del inflight[-2:]
-                    if e is not None:
+                    if isinstance(e, InjectedFault):
+                        # refused: nothing has changed, no link was added or lost
+                        env.probe("sync-refused-by-partner-validator")
+                    elif e is not None:
                         raise Violation("C20.sync-raised", "sync_trait raised %r" % (e,), i)
-                    self.model_sync(vals, edges, (a, ta), (b, tb), op["mutual"])
+                    else:
+                        self.model_sync(vals, edges, (a, ta), (b, tb), op["mutual"])
             elif k == "unsync":
                 cur = sorted(edges)
                 if cur:
